@@ -74,13 +74,15 @@ def ownership(orig, clone):
     for key, pop in clone.populations.items():
         if pop.simulation is not clone:
             return SIG_POP, f"clone.populations[{key}].simulation is not the clone"
-        if hasattr(pop, "members") and pop.members is not clone.persons:
-            which = "the original's persons" if pop.members is orig.persons else "another object"
-            return SIG_MEMBERS, f"clone.populations[{key}].members is {which}, not clone.persons"
+    for key, pop in clone.populations.items():
         for name, h in pop._holders.items():
             if h.population is not pop or h.simulation is not clone:
                 where = "the original" if (h.population is orig.populations.get(key) or h.simulation is orig) else "another object"
                 return SIG_HOLDER, f"holder of {name} in clone.populations[{key}] refers to {where} (population/simulation)"
+    for key, pop in clone.populations.items():
+        if hasattr(pop, "members") and pop.members is not clone.persons:
+            which = "the original's persons" if pop.members is orig.persons else "another object"
+            return SIG_MEMBERS, f"clone.populations[{key}].members is {which}, not clone.persons"
     if clone.persons is not clone.populations.get("person"):
         return SIG_POP, "clone.persons is not clone.populations['person']"
     return None
@@ -271,6 +273,9 @@ def fmt_op(op) -> str:
 
 
 def mk(sysd, spec, pre, trace, ops, tags=(), claimed=True) -> Case:
+    # `calculate_add` over the eternal period is C03's business (refused by repair C03, `0` before it)
+    if any(o[0] == "a" and o[2] == ETERNITY for o in list(pre) + [o for _, o in ops]):
+        claimed = False
     line = (f"heap run {fmt_sys(sysd)} {fmt_spec(spec)} {';'.join(fmt_op(o) for o in pre) or '-'} {1 if trace else 0} "
             f"{';'.join(s + fmt_op(o) for s, o in ops) or '-'}")
     return Case(line=line, payload=None, claimed=claimed, tags=tuple(tags))
@@ -279,7 +284,7 @@ def mk(sysd, spec, pre, trace, ops, tags=(), claimed=True) -> Case:
 def gen_spec(rng: random.Random):
     n = rng.choice([1, 2, 2, 3, 3, 4])
     groups = []
-    for e in ([1] if rng.random() < 0.6 else [1, 2]):
+    for e in rng.choice([[], [1], [1], [1], [1], [1, 2], [1, 2], [2, 1]]):
         count = rng.randint(1, n)
         mei = list(range(count)) + [rng.randrange(count) for _ in range(n - count)]
         rng.shuffle(mei)
@@ -296,7 +301,7 @@ def gen_system(rng: random.Random, groups):
     # inputs
     sysd.append((0, "month", rng.choice([0, 0, 1, 5]), None))
     sysd.append((0, unit(), rng.choice([0, 2]), None))
-    sysd.append((rng.choice(gk), unit(), rng.choice([0, 3]), None))
+    sysd.append((rng.choice(gk or [0]), unit(), rng.choice([0, 3]), None))
     if rng.random() < 0.5:
         sysd.append((rng.choice([0] + gk), "eternity", rng.choice([0, 7]), None))
     # formulas
@@ -432,11 +437,58 @@ MALFORMED = [
 ]
 
 
+def gen_spiral_case(rng: random.Random, lo: int, hi: int) -> Case:
+    """variables defined from their own past (`v(p) = c + v(p.last_month) [+ …]`): every calculation runs into the
+    spiral rule, marks cache entries for deletion and purges them at the end — on both sides, interleaved"""
+    n, groups = gen_spec(rng)
+    sysd = [(0, "month", rng.choice([0, 1]), None),
+            (0, "month", 0, (rng.choice([1, 2]), [(1, 1, "s", "l")] + ([(1, 0, "s", "s")] if rng.random() < 0.5 else [])))]
+    if rng.random() < 0.6:
+        sysd.append((0, "month", 0, (0, [(1, 1, "s", rng.choice("sl")), (2, 0, "s", "s")])))
+    if rng.random() < 0.4:
+        sysd.append((0, "month", 3, (1, [(1, len(sysd), "s", "l"), (1, 1, "s", "s")])))
+    spec = (n, groups, None)
+    tags = ["spiral-family", "memory"]
+
+    def op():
+        r = rng.random()
+        v = rng.randrange(len(sysd))
+        if r < 0.35:
+            return ("s", v, rng.choice(MONTHS), [rng.choice([0, 1, 2, 5]) for _ in range(n)])
+        if r < 0.45:
+            return ("d", v, rng.choice(MONTHS + [None, Y18]))
+        if r < 0.9:
+            return ("k", rng.randrange(1, len(sysd)), rng.choice(MONTHS))
+        if r < 0.95:
+            return ("a", rng.randrange(1, len(sysd)), rng.choice(["month/2018,1,1/3", "month/2017,12,1/2"]))
+        return ("t", rng.random() < 0.5)
+
+    pre = [op() for _ in range(rng.choice([0, 0, 1, 2]))]
+    ops = [(rng.choice("oc"), op()) for _ in range(rng.randint(lo, hi))]
+    tags += [f"ops={len(ops)}", f"pre={len(pre)}"]
+    return mk(sysd, spec, pre, rng.random() < 0.2, ops, tags)
+
+
 def generate(rng: random.Random, tier: str):
-    n_mem, n_disk, lo, hi = (1400, 500, 5, 12) if tier == "quick" else (16000, 6000, 5, 15)
+    n_mem, n_disk, n_spiral, lo, hi = (4500, 1500, 900, 5, 12) if tier == "quick" else (36000, 12000, 6000, 5, 15)
     out = [gen_case(rng, False, lo, hi) for _ in range(n_mem)]
     out += [gen_case(rng, True, lo, hi) for _ in range(n_disk)]
+    out += [gen_spiral_case(rng, lo, hi) for _ in range(n_spiral)]
     out += [Case(line=l, payload=None, claimed=True, tags=("malformed",)) for l in MALFORMED]
+    return out
+
+
+def neighbours(case: Case):
+    """the same history with one operation removed (before or after the clone)"""
+    f = case.line.split()
+    if len(f) != 7:
+        return []
+    pre, ops = su._split(f[4], ";"), su._split(f[6], ";")
+    out = []
+    for i in range(len(ops)):
+        out.append(Case(line=" ".join(f[:6] + [";".join(ops[:i] + ops[i + 1:]) or "-"]), tags=("neighbour",)))
+    for i in range(len(pre)):
+        out.append(Case(line=" ".join(f[:4] + [";".join(pre[:i] + pre[i + 1:]) or "-"] + f[5:]), tags=("neighbour",)))
     return out
 
 
@@ -476,9 +528,51 @@ PROP = Prop(
     pid="C13",
     lean_targets=["OFCore.Props.C13"],
     driver="ofdrv_heap",
-    generate=generate, impl=impl, oracle=oracle, nontrivial=nontrivial, corpus=corpus,
-    extra_lean_files=["OFCore/Heap.lean", "OFCore/Lemmas/Heap.lean", "OFCore/Drv/Heap.lean"],
-    partial_theorems=[],
-    rule="",
-    assumptions=[],
+    generate=generate, impl=impl, oracle=oracle, nontrivial=nontrivial, corpus=corpus, neighbours=neighbours,
+    extra_lean_files=["OFCore/Heap.lean", "OFCore/Lemmas/Heap.lean", "OFCore/Lemmas/HeapClone.lean",
+                      "OFCore/Lemmas/HeapRun.lean", "OFCore/Drv/Heap.lean"],
+    partial_theorems=["C13_footprints_disjoint_partial", "C13_noninterference_partial"],
+    search_budget_factor=2,
+    rule=("one line = one history: a rule system of 5-8 float variables built with type(...) (person and group entities; month, "
+          "year and eternity definition periods; inputs, and formulas `c + sum coef*dep` whose dependencies are read through "
+          "population(dep, p), group.sum(group.members(dep, p)) or person.<group>(dep, p), at the requested period or at "
+          "period.last_month; rarely a self-reference through last_month (spiral), a same-period cycle, a unit or an entity "
+          "mismatch); real Population / GroupPopulation objects of 1-4 persons in 0-2 group entities (every group non-empty) "
+          "handed to Simulation(tbs, populations), with or without MemoryConfig(max_memory_occupation=0, priority_variables=...) "
+          "installed before any holder exists; 0-6 public calls on the original (some histories first touch every holder), "
+          "clone(trace=...) and 5-12 (thorough 5-15) interleaved calls on original and clone: set_input (own-unit periods, "
+          "sometimes a foreign unit or a wrong length), delete_arrays (one period, a containing period, everything), calculate, "
+          "calculate_add (year over months, 3 months, ...), simulation.trace = b, get_holder; a quarter of the calls repeat an "
+          "earlier call's variable and period on the other side. A dedicated family runs variables defined from their own past "
+          "on both sides (spiral rule, invalidated entries, purge). Compared with the model after clone(): the alias graph "
+          "(id()-classes of simulation.persons / populations / tracer / invalidated_caches / _data_storage_dir, "
+          "population.simulation / _holders / members, holder.population / simulation / _memory_storage / ._arrays / "
+          "_disk_storage / its directory, of both simulations) and, after every call, its result and every observable of both "
+          "simulations (known periods and vectors of every holder, entity structure, what each part refers to, trace flag, "
+          "recorded roots, stack depth, invalidated set). Non-trivial = some call after the clone changed an observable. "
+          "distinct = distinct protocol lines."),
+    assumptions=[
+        "numpy vectors are treated as values: no call of the property mutates an array in place (clone and original do share "
+        "the array objects of the values present at clone time; a caller writing into an array returned by calculate() is outside the property)",
+        "the tax-benefit system, entities, variables, ids / members_entity_id arrays and the MemoryConfig object are shared by "
+        "reference and immutable here (mutation of the system is C14's subject)",
+        "ids are (region, index) pairs and a call allocates at the end of its own simulation's region: any discipline handing out "
+        "fresh ids models id(), nothing observes the numeric value of an id",
+        "formulas are those of the generated DSL (reads through population(), group.members/sum, person.<group>); arbitrary "
+        "Python formulas that keep references to populations across simulations are outside the model",
+        "float32 arithmetic is exact on the generated small integers; psutil's memory reading is forced to one branch by "
+        "max_memory_occupation=0; files of the temporary directory behave like a dict keyed by (variable, period text); "
+        "directory removal in OnDiskStorage.__del__ is not modelled (the harness keeps every simulation alive until the case ends)",
+        "an eternal variable with a formula requested at ETERNITY raises in the code (get_formula prints the start instant); "
+        "mirrored by the model, not counted; calculate_add over the eternal period is compared but not binding (C03)",
+        "the control histories of the oracle run each side's own calls on a fresh identical simulation (built the same way, "
+        "same calls before the clone); for the clone's control `simulation.trace = <clone's trace argument>` installs the new tracer clone() installs",
+    ],
+    exhaustive_note="",
+    level_text=("T on the model for ALL heaps and ALL interleavings: ownership of the clone (C13_clone_owns_itself), equality "
+                "of values / known periods / entity structure right after clone() with the original untouched "
+                "(C13_clone_equal_initially); for memory-backed simulations disjoint footprints and non-interference of "
+                "observations and returned values (_partial: the unrestricted statements are false because cloned holders share "
+                "their OnDiskStorage and directory, finding F-C13-disk, proved as C13_disk_shared_counterexample). K: alias "
+                "graph of the real objects right after clone() and every observable after every call of interleaved histories."),
 )
